@@ -15,7 +15,7 @@ import (
 // keeps its transactions and its declared-class overlay (vx.Freeze also reports any write into an
 // object reachable from the old view), while the published tip carries old + new classes.
 func VxC20DeltaUpdateKeepsOldViews() {
-	vx.Bound("stored chain of 1..2 blocks, tip with 0..1 declared class and no transactions; one PreConfirmedDeltaUpdate of the tip with one L1-handler transaction and 0..1 new class")
+	vx.Bound("stored chain of 1..2 blocks, tip with 0..1 declared class and no transactions; one PreConfirmedDeltaUpdate of the tip with one L1-handler transaction and 0..1 new class; the tip may already hold a storage slot and the nonce of one contract, the appended transaction may write that contract (same slot / other slot / nonce), values symbolic")
 	n := 1 + vx.Choice("len", 2)
 	oldest := uint64(5)
 	s := vxBuild(n, oldest)
@@ -28,6 +28,16 @@ func VxC20DeltaUpdateKeepsOldViews() {
 	if vx.Choice("tip-classes", 2) == 1 {
 		tipEntry.NewClasses = map[felt.Felt]core.ClassDefinition{k7: nil}
 		vx.Cover("tip-already-declares-a-class")
+	}
+	// the tip's squashed state diff may already hold a slot of contract 0xc0 (written by an earlier transaction)
+	c0 := felt.FromUint64[felt.Felt](0xc0)
+	slot1 := felt.FromUint64[felt.Felt](1)
+	tipWrote := vx.Choice("tip-wrote-the-contract", 2) == 1
+	oldVal := felt.FromUint64[felt.Felt](uint64(vx.U8("tip.value")))
+	if tipWrote {
+		tipEntry.StateUpdate.StateDiff.StorageDiffs[c0] = map[felt.Felt]*felt.Felt{slot1: &oldVal}
+		tipEntry.StateUpdate.StateDiff.Nonces[c0] = &oldVal
+		vx.Cover("tip-already-wrote-the-contract")
 	}
 	had := len(tipEntry.NewClasses)
 	tip := oldest + uint64(n) - 1
@@ -51,6 +61,18 @@ func VxC20DeltaUpdateKeepsOldViews() {
 		Receipts:              []*starknet.TransactionReceipt{{TransactionHash: &h}},
 		TransactionStateDiffs: []*starknet.StateDiff{{}},
 	}
+	// the appended transaction may write the same contract: the same slot, another slot, its nonce
+	newVal := felt.FromUint64[felt.Felt](1000 + uint64(vx.U8("delta.value")))
+	deltaSlot := felt.FromUint64[felt.Felt](uint64(1 + vx.Choice("delta.slot", 2)))
+	deltaWrites := vx.Choice("delta-writes-the-contract", 2) == 1
+	if deltaWrites {
+		delta.TransactionStateDiffs[0].StorageDiffs = map[string][]struct {
+			Key   *felt.Felt `json:"key"`
+			Value *felt.Felt `json:"value"`
+		}{"0xc0": {{Key: &deltaSlot, Value: &newVal}}}
+		delta.TransactionStateDiffs[0].Nonces = map[string]*felt.Felt{"0xc0": &newVal}
+		vx.Cover("delta-writes-the-contract")
+	}
 	affected, err := s.ApplyUpdate(delta, tip, 0, oldest, newClasses)
 	vx.Thaw()
 	vx.Assert(err == nil && affected != nil, "delta-applied")
@@ -65,4 +87,26 @@ func VxC20DeltaUpdateKeepsOldViews() {
 	vx.Assert(view.Head() == tipEntry && view.Length() == n, "old-view-still-points-at-old-entry")
 	vx.Assert(len(tipEntry.Block.Transactions) == 0, "old-view-transactions-unchanged")
 	vx.Assert(len(tipEntry.NewClasses) == had, "old-view-declared-classes-unchanged")
+	// ... and the old view's state diff is the one it had: the slot and nonce the earlier transaction wrote
+	oldSD := tipEntry.StateUpdate.StateDiff
+	if tipWrote {
+		m := oldSD.StorageDiffs[c0]
+		vx.Assert(len(m) == 1 && m[slot1] != nil && m[slot1].Equal(&oldVal), "old-view-storage-diff-unchanged")
+		vx.Assert(oldSD.Nonces[c0] != nil && oldSD.Nonces[c0].Equal(&oldVal), "old-view-nonce-diff-unchanged")
+	} else {
+		vx.Assert(len(oldSD.StorageDiffs) == 0 && len(oldSD.Nonces) == 0, "old-view-state-diff-still-empty")
+	}
+	// while the new tip's squashed diff is old overlaid with new
+	newSD := affected.StateUpdate.StateDiff
+	if deltaWrites {
+		m := newSD.StorageDiffs[c0]
+		vx.Assert(m[deltaSlot] != nil && m[deltaSlot].Equal(&newVal), "new-tip-has-the-appended-write")
+		vx.Assert(newSD.Nonces[c0] != nil && newSD.Nonces[c0].Equal(&newVal), "new-tip-has-the-appended-nonce")
+		if tipWrote && !deltaSlot.Equal(&slot1) {
+			vx.Assert(m[slot1] != nil && m[slot1].Equal(&oldVal), "new-tip-keeps-the-earlier-write")
+		}
+	} else if tipWrote {
+		m := newSD.StorageDiffs[c0]
+		vx.Assert(m[slot1] != nil && m[slot1].Equal(&oldVal), "new-tip-keeps-the-earlier-write")
+	}
 }
